@@ -3,6 +3,7 @@ import ast
 
 from ..core import astutil as A
 from ..core import cfg as CFG
+from ..core import match as M
 from ..core.model import dotted
 
 META = {
@@ -12,6 +13,30 @@ META = {
 }
 CU = "pkgcore.fetch.custom"
 BA = "pkgcore.fetch.base"
+
+
+def _inert(st):
+    """a statement without effect on the fetch state: `pass`, a bare constant, a logging call"""
+    if isinstance(st, ast.Pass):
+        return True
+    if isinstance(st, ast.Expr):
+        v = st.value
+        if isinstance(v, ast.Constant):
+            return True
+        if isinstance(v, ast.Call) and (dotted(v.func) or "").split(".")[0] in ("logger", "logging", "warnings"):
+            return True
+    return False
+
+
+def _is_verify(st, value=None):
+    """`self._verify(<value>, ...)` as an expression statement"""
+    if not (isinstance(st, ast.Expr) and isinstance(st.value, ast.Call) and A.unparse(st.value.func) == "self._verify" and st.value.args):
+        return False
+    return value is None or ast.dump(st.value.args[0]) == ast.dump(value)
+
+
+def _mentions_unlink(stmts):
+    return any("unlink" in (getattr(n, "attr", None) or getattr(n, "id", None) or "") for s in stmts for n in ast.walk(s) if isinstance(n, (ast.Attribute, ast.Name)))
 
 
 def run(ctx):
@@ -28,9 +53,9 @@ def run(ctx):
         blk = parent.body if isinstance(parent, ast.Try) and r in parent.body else None
         ok = False
         if blk is not None:
-            i = blk.index(r)
-            prev = blk[i - 1] if i > 0 else None
-            ok = isinstance(prev, ast.Expr) and isinstance(prev.value, ast.Call) and A.unparse(prev.value.func) == "self._verify" and A.unparse(prev.value.args[0]) == A.unparse(r.value)
+            # the nearest effective statement before the return (logging / no-op lines do not count)
+            before = [s for s in blk[:blk.index(r)] if not _inert(s)]
+            ok = bool(before) and _is_verify(before[-1], r.value)
         ctx.check("R1", fe, ok, f"return-after-verify@{r.lineno - fe.node.lineno}", f"`return {A.unparse(r.value)}` directly follows `self._verify({A.unparse(r.value)}, ...)` in the same try body",
                   f"fetcher.fetch returns `{A.unparse(r.value)}` on a path where it was not just verified: an unverified (partial/corrupt) file is reported as fetched", node=r)
     for c in verifies:
@@ -40,48 +65,68 @@ def run(ctx):
     # ---- R2 last attempt examined ------------------------------------------------------------------------
     sp = [c for c in A.calls(fe.node) if dotted(c.func) == "spawn_bash"]
     ctx.require(len(sp) == 1, "fetcher.fetch: spawn of the fetch command not found")
-    final = [r for r in A.raises(fe.node) if r.exc is not None and A.unparse(r.exc) == "last_exc"]
+    loops = [n for n in fe.node.body if isinstance(n, ast.For)]
+    ctx.require(len(loops) == 1, "fetcher.fetch: attempt loop not found")
+    lp = loops[0]
+    # the give-up exit: the one `raise <remembered exception>` outside the attempt loop
+    final = [r for r in A.raises(fe.node) if isinstance(r.exc, ast.Name) and r.cause is None and not A.contains_node(lp, r)]
     ctx.require(len(final) == 1, "fetcher.fetch: final `raise last_exc` not found")
+    last = final[0].exc.id
     vn = {g.node_of(c) for c in verifies}
     fn_ = g.node_of(final[0])
     p = g.find_path([g.node_of(sp[0])], lambda n: n is fn_, avoid=lambda n: n in vn)
     ctx.check("R2", fe, p is None, "spawn-result-verified-before-giving-up", "every path from a fetch attempt to the final failure passes a _verify (the last attempt's file is looked at)",
               "fetcher.fetch can go from the last allowed attempt straight to `raise last_exc`: a correct file produced by the final attempt is never verified and the fetch is reported as failed", node=final[0], witness=g.fmt_path(p) if p else None)
-    loops = [n for n in fe.node.body if isinstance(n, ast.For)]
-    ctx.require(len(loops) == 1, "fetcher.fetch: attempt loop not found")
-    lp = loops[0]
     ctx.check("R2", fe, A.unparse(lp.iter) == "range(self.attempts)", "attempt-budget", "the loop runs the configured number of attempts")
-    ctx.check("R2", fe, isinstance(lp.body[0], ast.Try) and any(A.unparse(c.func) == "self._verify" for c in A.calls(ast.Module(body=lp.body[0].body, type_ignores=[]))), "verify-at-loop-top", "each iteration starts by verifying what is there (an earlier attempt's result or a pre-existing file)")
+    eff = [s for s in lp.body if not _inert(s)]
+    top = eff[0] if eff and isinstance(eff[0], ast.Try) else None
+    ctx.check("R2", fe, top is not None and any(A.unparse(c.func) == "self._verify" for c in A.calls(top.body)), "verify-at-loop-top", "each iteration starts by verifying what is there (an earlier attempt's result or a pre-existing file)")
     ctx.floor("R2", 3)
 
     # ---- R3 attempt budget is not cut short ----------------------------------------------------------------------
+    # locals by role: the url iterator, the command handed to the spawn, the file path, the spawn's exit code
+    um = M.one(fe.node, "$uris = iter(target.uri)")
+    cm = M.one(fe.node, "spawn_bash($command % $_, ...)")
+    pm = M.one(fe.node, "$path = pjoin(self.distdir, target.filename)")
+    E = {"last": last}
+    for m in (um, cm, pm):
+        if m is not None:
+            E.update(m.env)
+
+    def url_exhaustion(r):
+        """`raise errors.FetchFailed(...)` in the StopIteration handler of the try that draws the next url"""
+        h = next((p_ for p_ in A.parents(r) if isinstance(p_, ast.ExceptHandler)), None)
+        tr = getattr(h, "_parent", None)
+        return h is not None and h.type is not None and A.unparse(h.type) == "StopIteration" and isinstance(tr, ast.Try) and um is not None and M.has(tr.body, "next($uris)", um.env)
+
     n_r = 0
     for r in [x for x in A.walk(lp) if isinstance(x, ast.Raise)]:
         n_r += 1
         e = A.unparse(r.exc) if r.exc is not None else "<re-raise>"
-        ok = e.startswith("errors.UnmodifiableFile(") or (e.startswith("errors.FetchFailed(") and "ran out of urls" in e)
+        rn = A.raised_name(r) if isinstance(r.exc, ast.Call) else None
+        ok = rn == "errors.UnmodifiableFile" or (rn == "errors.FetchFailed" and url_exhaustion(r))
         h = next((p for p in A.parents(r) if isinstance(p, ast.ExceptHandler)), None)
         ctx.check("R3", fe, ok, f"loop-exit:{e[:40]}", f"`raise {e[:50]}` ends the attempts for a reason no further attempt can cure",
                   f"inside the attempt loop, `raise {e[:60]}`{' (handler for ' + A.unparse(h.type) + ')' if h is not None and h.type is not None else ''} gives up although attempts remain: a later attempt could still leave a correct file", node=r)
     ctx.check("R3", fe, n_r >= 2, f"loop-raise-sites:{n_r}", f"{n_r} raise sites in the loop inspected")
-    hs = {A.unparse(h.type): h for h in lp.body[0].handlers if h.type is not None}
+    hs = {A.unparse(h.type): h for h in (top.handlers if top is not None else []) if h.type is not None}
     ctx.check("R3", fe, list(hs) == ["errors.MissingDistfile", "errors.ChksumFailure", "errors.FetchFailed"], f"handler-order:{list(hs)}", "handlers go from the most specific failure to FetchFailed")
     for name in ("errors.ChksumFailure",):
         h = hs.get(name)
         if h is None:
             continue
-        t = A.unparse(h)
-        ctx.check("R3", fe, "os.unlink(path)" in t and "command = self.command" in t and "last_exc = exc" in t, "corrupt-file-refetched", "a corrupted/oversized file is dropped and fetched afresh")
+        Eh = dict(E, exc=h.name)
+        ctx.check("R3", fe, M.has(h.body, "os.unlink($path)", Eh) and M.has(h.body, "$command = self.command", Eh) and M.has(h.body, "$last = $exc", Eh), "corrupt-file-refetched", "a corrupted/oversized file is dropped and fetched afresh")
     h = hs.get("errors.FetchFailed")
     if h is not None:
-        t = A.unparse(h)
+        Eh = dict(E, exc=h.name)
         ifs = [n for n in h.body if isinstance(n, ast.If)]
-        ok = len(ifs) == 1 and A.unparse(ifs[0].test) == "not exc.resumable" and "os.unlink(path)" in A.unparse(ast.Module(body=ifs[0].body, type_ignores=[])) and "command = self.resume_command" in A.unparse(ast.Module(body=ifs[0].orelse, type_ignores=[])) and "unlink" not in A.unparse(ast.Module(body=ifs[0].orelse, type_ignores=[]))
+        ok = len(ifs) == 1 and M.pat("not $exc.resumable").matches(ifs[0].test, Eh) is not None and M.has(ifs[0].body, "os.unlink($path)", Eh) and M.has(ifs[0].orelse, "$command = self.resume_command", Eh) and not _mentions_unlink(ifs[0].orelse)
         ctx.check("R3", fe, ok, "partial-kept-for-resume", "a resumable partial file is kept and the resume command is used; a non-resumable one is removed",
                   "the FetchFailed handler no longer keeps resumable partial files for the resume command", node=h)
     h = hs.get("errors.MissingDistfile")
     if h is not None:
-        ctx.check("R3", fe, "command = self.command" in A.unparse(h) and "unlink" not in A.unparse(h), "missing-fetches-fresh", "a missing file is fetched with the plain command")
+        ctx.check("R3", fe, M.has(h.body, "$command = self.command", E) and not _mentions_unlink(h.body), "missing-fetches-fresh", "a missing file is fetched with the plain command")
     ctx.floor("R3", 6)
 
     # ---- R4 unverified discard only without checksums -----------------------------------------------------------------
@@ -90,14 +135,19 @@ def run(ctx):
     gd = [p for p in A.parents(post[0]) if isinstance(p, ast.If)]
     ctx.require(gd, "fetcher.fetch: post-spawn discard is unguarded")
     test = gd[0].test
-    conj = [A.unparse(v) for v in (test.values if isinstance(test, ast.BoolOp) and isinstance(test.op, ast.And) else [test])]
-    ctx.check("R4", fe, "not target.chksums" in conj, f"discard-only-without-checksums:{A.unparse(test)[:50]}", "the file is discarded on the exit code alone only when the target has no checksums at all (nothing to verify against)",
+    conj = test.values if isinstance(test, ast.BoolOp) and isinstance(test.op, ast.And) else [test]
+    ctx.check("R4", fe, any(M.pat("not target.chksums").matches(v) for v in conj), f"discard-only-without-checksums:{A.unparse(test)[:50]}", "the file is discarded on the exit code alone only when the target has no checksums at all (nothing to verify against)",
               f"after a non-zero exit the file is discarded under `{A.unparse(test)}`: for targets that do carry checksums the exit code is trusted over them, so a complete, matching file is deleted", node=gd[0])
-    ctx.check("R4", fe, "ret != 0" in conj, "discard-only-on-failure", "and only when the fetcher reported failure")
+    rm = M.one(fe.node, "$ret = spawn_bash(...)")
+    ctx.check("R4", fe, rm is not None and any(M.pat("$ret != 0").matches(v, rm.env) for v in conj), "discard-only-on-failure", "and only when the fetcher reported failure")
     ctx.floor("R4", 2)
 
     # ---- R5 _verify -----------------------------------------------------------------------------------------------------
     ve = P.func(BA, "fetcher._verify")
+    # the checksum-name collection, by role: what is spread into get_chksums()
+    chm = M.one(ve.node, "get_chksums(file_location, *$chfs)")
+    chfs = chm["chfs"] if chm else None
+    EV = dict(chm.env) if chm else {}
     # single-use iterators must not be iterated more than once
     n_it = 0
     for t_, v, st in A.assignments(ve.node):
@@ -108,7 +158,7 @@ def run(ctx):
         later_defs = [s2 for t2, v2, s2 in A.assignments(ve.node, t_.id) if s2.lineno > st.lineno]
         if later_defs:
             uses = [u for u in uses if u.lineno <= min(s.lineno for s in later_defs)]
-        if t_.id == "chfs":
+        if t_.id == chfs:
             n_it = max(n_it, len(uses))
         if lazy:
             it_uses = [u for u in uses if isinstance(getattr(u, "_parent", None), (ast.comprehension, ast.For, ast.Starred)) or (isinstance(getattr(u, "_parent", None), ast.Call) and u in u._parent.args)]
@@ -121,19 +171,20 @@ def run(ctx):
             worst = max((len(v_) for v_ in per_block.values()), default=0)
             ctx.check("R5", ve, worst <= 1, f"single-use-iterator:{t_.id}", f"`{t_.id}` (lazy) is consumed once",
                       f"`{t_.id} = {A.unparse(v)[:60]}` is a one-shot iterator but is iterated {worst} times on one path: after the first pass it is empty, get_chksums() is called with no names and NO checksum is compared — a same-size corrupted file verifies", node=st)
-    finals = [v for t_, v, _ in A.assignments(ve.node, "chfs")]
+    finals = [v for t_, v, _ in A.assignments(ve.node, chfs)] if chfs else []
     ctx.check("R5", ve, bool(finals) and isinstance(finals[-1], (ast.Call, ast.List, ast.ListComp)) and (not isinstance(finals[-1], ast.Call) or dotted(finals[-1].func) in ("list", "sorted", "tuple")), f"chfs-reiterable:{A.unparse(finals[-1])[:30] if finals else ''}", f"the checksum-name collection is a list/tuple (it is iterated {n_it} times)")
-    t = A.unparse(ve.node)
-    ctx.check("R5", ve, "chfs = set(target.chksums).intersection(handlers)" in t and "chfs.discard('size')" in t, "all-nonsize-checksums", "every checksum of the target that has a handler (except size, done first) is compared")
-    ctx.check("R5", ve, "missing = set(target.chksums).difference(handlers)" in t and "raise errors.RequiredChksumDataMissing" in t, "missing-handler-is-error", "with all_chksums a checksum without handler is an error, not skipped")
-    cmp_ = [n for n in A.walk(ve.node) if isinstance(n, ast.If) and isinstance(n.test, ast.Compare) and isinstance(n.test.ops[0], ast.NotEq) and any(isinstance(s, ast.Raise) and "ChksumFailure" in A.unparse(s.exc) for s in n.body)]
+    ctx.check("R5", ve, chm is not None and M.has(ve.node, "$chfs = set(target.chksums).intersection(handlers)\n$chfs.discard('size')", EV), "all-nonsize-checksums", "every checksum of the target that has a handler (except size, done first) is compared")
+    ctx.check("R5", ve, M.has(ve.node, "$missing = set(target.chksums).difference(handlers)\nif $missing:\n    raise errors.RequiredChksumDataMissing(...)"), "missing-handler-is-error", "with all_chksums a checksum without handler is an error, not skipped")
+    cmp_ = [n for n in A.walk(ve.node) if isinstance(n, ast.If) and isinstance(n.test, ast.Compare) and isinstance(n.test.ops[0], ast.NotEq) and any(isinstance(s, ast.Raise) and (A.raised_name(s) or "").endswith("ChksumFailure") for s in n.body)]
     ctx.check("R5", ve, len(cmp_) == 3, f"mismatch-raises:{len(cmp_)}", "size, explicit-handler and default-handler comparisons each raise ChksumFailure on mismatch")
-    ctx.check("R5", ve, "if val < target.chksums['size']:" in t and "resumable=True" in t and "'file is too small'" in t, "short-file-resumable", "a short file is a resumable failure (kept for the resume command)")
-    ctx.check("R5", ve, "raise errors.MissingDistfile(file_location)" in t and "'file is empty', resumable=False" in t, "missing-or-empty", "a missing file / an empty file without size information are failures")
+    ctx.check("R5", ve, M.has(ve.node, "$val = handlers['size'](file_location)\nif $val != target.chksums['size']:\n    if $val < target.chksums['size']:\n        raise errors.FetchFailed(file_location, $_, resumable=True)"), "short-file-resumable", "a short file is a resumable failure (kept for the resume command)")
+    ctx.check("R5", ve, M.has(ve.node, "raise errors.MissingDistfile(file_location)") and M.has(ve.node, "raise errors.FetchFailed(file_location, $_, resumable=False)"), "missing-or-empty", "a missing file / an empty file without size information are failures")
     zi = [c for c in A.calls(ve.node) if dotted(c.func) == "zip"]
-    ctx.check("R5", ve, len(zi) == 1 and [A.unparse(a) for a in zi[0].args] == ["desired_vals", "calced", "chfs"] and "calced = get_chksums(file_location, *chfs)" in t and "desired_vals = [target.chksums[x] for x in chfs]" in t, "default-path-aligned", "expected values, computed values and names are produced from the same ordered collection")
+    al = chm is not None and M.one(ve.node, "$d = [target.chksums[$x] for $x in $chfs]", EV)
+    al = al and M.one(ve.node, "$c = get_chksums(file_location, *$chfs)", al.env)
+    ctx.check("R5", ve, len(zi) == 1 and bool(al) and M.pat("zip($d, $c, $chfs)").matches(zi[0], al.env) is not None, "default-path-aligned", "expected values, computed values and names are produced from the same ordered collection")
     gp = P.func(CU, "fetcher.get_path")
-    ctx.check("R5", gp, "if self._verify(path, fetchable) is None:\n        return path" in A.unparse(gp.node), "get_path-verified", "get_path returns a path only after _verify")
+    ctx.check("R5", gp, M.has(gp.node, "if self._verify($$p, fetchable) is None:\n    return $$p"), "get_path-verified", "get_path returns a path only after _verify")
     ctx.floor("R5", 8)
 
 
